@@ -157,6 +157,19 @@ static size_t vh_heap(void) {
 #endif
 }
 
+/* live heap NOT counting the harness's own token builders (they may grow inside a script when a result is larger than
+ * anything the script announced; that is the harness's memory, not the library's) */
+static size_t vh_heap_excl(const vh_sb *a, const vh_sb *b) {
+#ifdef VH_ASAN
+    size_t h = __sanitizer_get_current_allocated_bytes();
+    if (a->p) h -= __sanitizer_get_allocated_size(a->p);
+    if (b->p) h -= __sanitizer_get_allocated_size(b->p);
+    return h;
+#else
+    (void) a; (void) b; return 0;
+#endif
+}
+
 static char *vh_readfile(const char *path, size_t *len) {
     FILE *f = strcmp(path, "-") ? fopen(path, "rb") : stdin; size_t cap = 1 << 20, n = 0; char *b;
     if (!f) { perror(path); exit(2); }
@@ -243,7 +256,7 @@ static int vh_main(int argc, char **argv, int fileidx) {
             if (getenv("VH_TOKEN_MAX") && (size_t) atol(getenv("VH_TOKEN_MAX")) > need) need = (size_t) atol(getenv("VH_TOKEN_MAX"));
             sb_reset(&ret); sb_reset(&state); sb_need(&ret, need); sb_need(&state, need);
         }
-        h0 = vh_heap();
+        h0 = vh_heap_excl(&ret, &state);
         vh_in_script = 1;
         alarm((unsigned) vh_watchdog_s);
         vh_begin();
@@ -278,7 +291,7 @@ static int vh_main(int argc, char **argv, int fileidx) {
         alarm(0);
         vh_in_script = 0;
         vh_progress_set(vh_cur_sid, n, "done", 0);
-        h1 = vh_heap();
+        h1 = vh_heap_excl(&ret, &state);
         if (vh_check_heap && !abandoned && h1 != h0) {
             printf("X %ld %d heap end exp=%lu got=%lu\n", vh_cur_sid, n, (unsigned long) h0, (unsigned long) h1);
         }
